@@ -4,6 +4,7 @@ import TensoraVerif.Model.IRWire
 import TensoraVerif.Model.AlgebraWire
 import TensoraVerif.Model.GraphWire
 import TensoraVerif.Model.ParserWire
+import TensoraVerif.Model.ApiWire
 import TensoraVerif.Lemmas.PeepholeExact
 open TV
 
@@ -170,6 +171,38 @@ def handle (cmd : String) (args : List Sexp) : Sexp :=
     match IR.Wire.moduleOf m with
     | some m => IR.Wire.moduleToSexp m
     | none => Sexp.mk "bad-request" [.str "unknown-constructor"]
+  | "MAKEPROBLEM", [sg, fs] =>
+    match Api.Wire.sigOf sg, Api.Wire.namedFmts fs with
+    | some sg, some fs =>
+      match Api.makeProblem sg fs with
+      | .ok p => Sexp.mk "ok" [.list (p.formats.map fun (n, f) => .list [.str n, Api.Wire.fmtToSexp f])]
+      | .error e => Sexp.mk "err" [.atom (Api.Wire.problemErrName e)]
+    | _, _ => Sexp.mk "bad-request" [.str "makeproblem-args"]
+  | "CALLCHECK", [p, args] =>
+    match Api.Wire.problemOf p, Api.Wire.argsOf args with
+    | some p, some args =>
+      match Api.initCheck p with
+      | some e => Sexp.mk "init-err" [.atom (Api.Wire.callErrName e)]
+      | none =>
+        match Api.callCheck p args with
+        | .ok dims => Sexp.mk "ok" [Sexp.ofNats dims]
+        | .error e => Sexp.mk "err" [.atom (Api.Wire.callErrName e)]
+    | _, _ => Sexp.mk "bad-request" [.str "callcheck-args"]
+  | "OPSYNTH", [l, r, .str op] =>
+    match Api.Wire.operandOf l, Api.Wire.operandOf r, Api.Wire.opOfStr op with
+    | some l, some r, some op =>
+      match Api.binarySynth l r op with
+      | .ok (a, f) => Sexp.mk "ok" [.str (Api.Wire.assignText a), Api.Wire.fmtToSexp f]
+      | .error .valueError => Sexp.mk "err" [.atom "ValueError"]
+      | .error .notImplemented => Sexp.mk "err" [.atom "NotImplemented"]
+    | _, _, _ => Sexp.mk "bad-request" [.str "opsynth-args"]
+  | "MATMULSYNTH", [.list [.atom "tensor", fl, dl], .list [.atom "tensor", fr, dr]] =>
+    match Api.Wire.fmtOf fl, dl.toNats?, Api.Wire.fmtOf fr, dr.toNats? with
+    | some fl, some dl, some fr, some dr =>
+      match Api.matmulSynth fl dl fr dr with
+      | .ok (a, f) => Sexp.mk "ok" [.str (Api.Wire.assignText a), Api.Wire.fmtToSexp f]
+      | .error _ => Sexp.mk "err" [.atom "ValueError"]
+    | _, _, _, _ => Sexp.mk "bad-request" [.str "matmul-args"]
   | "PARSE", [.str s] =>
     match Parse.parseAssignment s with
     | .ok a => Sexp.mk "ok" [Parse.Wire.assignToSexp a]
